@@ -63,12 +63,26 @@ SEG_EXTRA = {"data.memtable": {"write-cold-duration": "2h", "force-snapShot-dura
              "data": {"max-rows-per-segment": 8}}
 
 
-def _servers(scratch):
+# address-space cap of every server process: a query that makes the store allocate without bound (seen: an output record
+# with one point per step since the Unix epoch, 60 GB) must kill that server, not the shared machine
+SERVER_MEM_KB = 16 * 1024 * 1024
+
+
+def _limited(scratch, real):
+    p = os.path.join(scratch, "ts-server-limited.sh")
+    if not os.path.exists(p):
+        with open(p, "w") as fh:
+            fh.write("#!/bin/bash\nulimit -v %d\nexec %s \"$@\"\n" % (SERVER_MEM_KB, real))
+        os.chmod(p, 0o755)
+    return p
+
+
+def _servers(scratch, tag=""):
     import threading
-    a = blackbox.Server(CID, scratch, name="c18")
-    b = blackbox.Server(CID, scratch, name="c18seg", extra=SEG_EXTRA)
+    a = blackbox.Server(CID, scratch, name="c18" + tag)
+    b = blackbox.Server(CID, scratch, name="c18seg" + tag, extra=SEG_EXTRA)
     a.build()
-    b.bin = a.bin
+    a.bin = b.bin = _limited(scratch, a.bin)
     errs = []
 
     def go(s):
@@ -91,6 +105,42 @@ def _servers(scratch):
             a.stop()
             raise blackbox.ToolError("ctrl %s on the layout server: %s %r" % (mod, st, body[:200]))
     return a, b
+
+
+CAND = "server_unreachable_candidate"
+
+
+def _culprits(binp, cands, scratch):
+    """Replays every candidate alone (fresh databases; a fresh server pair after every death); returns the violations of kind
+    server_died_during_query and the server pair that is still running (or (None, None))."""
+    out, seen = [], set()
+    pair = (None, None)
+    n = 0
+    for c in cands:
+        if c.get("key") in seen:
+            continue
+        seen.add(c.get("key"))
+        n += 1
+        if pair[0] is None:
+            try:
+                pair = _servers(scratch, tag="-r%d" % n)
+            except blackbox.ToolError as e:
+                checklib.tool_error(str(e))
+        cdir = os.path.join(scratch, "cand%d" % n)
+        os.makedirs(cdir, exist_ok=True)
+        cf = os.path.join(cdir, "case.json")
+        with open(cf, "w") as fh:
+            json.dump({"replay": c.get("replay")}, fh)
+        env = {"VERIF_SERVER_URL": pair[0].url, "VERIF_SERVER_URL_SEG": pair[1].url, "VERIF_REPLAY": cf}
+        reps = checklib.run_workers(CID, binp, TEST, "quick", 1, 600, cdir, extra_env=env)
+        died = [v for r in reps for v in (r.get("violations") or []) if v.get("kind") == "server_died_during_query"]
+        if died:
+            out += died[:1]
+        if died or not all(s.alive() for s in pair):
+            for s in pair:
+                s.stop()
+            pair = (None, None)
+    return out, pair
 
 
 def run(tier, replay):
@@ -130,9 +180,30 @@ def run(tier, replay):
         checklib.run_workers(CID, binp, TEST, tier, 1, 300, lscratch, extra_env=dict(env, VERIF_C18_PHASE="load"))
         checklib.log("databases loaded after %.1fs" % (time.time() - t0))
         reps = checklib.run_workers(CID, binp, TEST, tier, nw, dl, scratch, extra_env=dict(env, VERIF_C18_PHASE="query"))
-        for s in (srv, seg):
-            if not s.alive():
-                checklib.tool_error("ts-server %s died during the run (log under %s is removed; rerun with VERIF_TMP)" % (s.name, scratch))
+        # a worker that loses a server reports the query it had in flight as a candidate and stops
+        cands = []
+        for r in reps:
+            keep = [v for v in r.get("violations") or [] if v.get("kind") != CAND]
+            for v in r.get("violations") or []:
+                if v.get("kind") == CAND:
+                    cands.append(v)
+            r["n_violations"] = r.get("n_violations", 0) - (len(r.get("violations") or []) - len(keep))
+            r["violations"] = keep
+        dead = [s.name for s in (srv, seg) if not s.alive()]
+        if dead and not cands:
+            checklib.tool_error("ts-server %s died during the run and no worker had a query in flight (log under %s is "
+                                "removed; rerun with VERIF_TMP)" % (dead, scratch))
+        if cands:
+            checklib.log("ts-server %s died; %d queries were in flight, replaying each alone" % (dead, len(cands)))
+            for s in (srv, seg):
+                s.stop()
+            srv = seg = None
+            culprits, (srv, seg) = _culprits(binp, cands, scratch)
+            if not culprits:
+                checklib.tool_error("a ts-server died during the run but none of the %d queries in flight kills a fresh "
+                                    "server when replayed alone: %s" % (len(cands), [c.get("key") for c in cands]))
+            reps[0]["violations"] = (reps[0].get("violations") or []) + culprits
+            reps[0]["n_violations"] = reps[0].get("n_violations", 0) + len(culprits)
         return checklib.finish(CID, tier, LEVEL, RULE, reps, t0, ASSUMPTIONS)
     finally:
         for s in (srv, seg):
